@@ -1,6 +1,7 @@
 package kit
 
 import (
+	"fmt"
 	"go/ast"
 	"go/constant"
 	"go/token"
@@ -34,6 +35,7 @@ type BoolFlow struct {
 	OnCond func(cond ast.Expr, s S) S
 
 	local map[types.Object]bool
+	done  map[*Func]bool
 }
 
 // IsBoolType reports whether t's underlying type is boolean.
@@ -48,8 +50,18 @@ func IsBoolType(t types.Type) bool {
 // computeLocals finds the variables whose value the flow may track: declared
 // inside the function, address never taken, never assigned inside a nested
 // function literal.
-func (bf *BoolFlow) computeLocals() {
-	f := bf.Std.F
+func (bf *BoolFlow) computeLocals() { bf.ensure(bf.Std.F) }
+
+// ensure adds the trackable locals of fn (the root function or a callee that
+// Std evaluates inline).
+func (bf *BoolFlow) ensure(f *Func) {
+	if bf.done == nil {
+		bf.done = map[*Func]bool{}
+	}
+	if f == nil || f.Body == nil || bf.done[f] {
+		return
+	}
+	bf.done[f] = true
 	info := f.Info()
 	bad := map[types.Object]bool{}
 	all := map[types.Object]bool{}
@@ -91,7 +103,9 @@ func (bf *BoolFlow) computeLocals() {
 		})
 	}
 	walk(f.Body, false)
-	bf.local = map[types.Object]bool{}
+	if bf.local == nil {
+		bf.local = map[types.Object]bool{}
+	}
 	for o := range all {
 		if !bad[o] {
 			bf.local[o] = true
@@ -107,7 +121,10 @@ func (bf *BoolFlow) computeLocals() {
 }
 
 // Local reports whether o is a trackable local of the function.
-func (bf *BoolFlow) Local(o types.Object) bool { return bf.local[o] }
+func (bf *BoolFlow) Local(o types.Object) bool {
+	bf.ensure(bf.Std.Cur())
+	return bf.local[o]
+}
 
 // DetEval evaluates a boolean expression deterministically under s: every
 // atom it meets must already be valued.  ok=false means "not determined".
@@ -156,6 +173,11 @@ func (bf *BoolFlow) DetEval(e ast.Expr, s S) (val, ok bool) {
 			}
 		}
 	case *ast.Ident:
+		if r := ast.Unparen(bf.Std.Resolve(x)); r != ast.Expr(x) {
+			// a parameter of a helper evaluated inline: the argument it is bound to
+			return bf.DetEval(r, s)
+		}
+		bf.ensure(bf.Std.Cur())
 		if o := ObjOf(info, x); o != nil && bf.local[o] {
 			id := VarID(o)
 			if a := s.Get("sy:" + id); a != "" {
@@ -199,6 +221,13 @@ func (bf *BoolFlow) foldLeaf(e ast.Expr, s S) (bool, bool) {
 	e = ast.Unparen(e)
 	switch x := e.(type) {
 	case *ast.Ident:
+		if r := ast.Unparen(bf.Std.Resolve(x)); r != ast.Expr(x) {
+			if v, ok := bf.DetEval(r, s); ok {
+				return v, true
+			}
+			break
+		}
+		bf.ensure(bf.Std.Cur())
 		if o := ObjOf(info, x); o != nil && bf.local[o] {
 			if s.Get("sy:"+VarID(o)) != "" {
 				return bf.DetEval(x, s)
@@ -239,6 +268,24 @@ func (bf *BoolFlow) Client() Client {
 	st.Fold = bf.foldLeaf
 	st.Eval.Atom = bf.Atom
 	bf.computeLocals()
+	// Std evaluates helpers inline with its own client, so the wrappers below
+	// only see the root function; inside a helper the boolean assignments and
+	// the returned booleans are handled through the OnNode hook (post-state).
+	userOnNode := st.OnNode
+	st.OnNode = func(n ast.Node, s S) []S {
+		states := []S{s}
+		if st.Cur() != st.F {
+			states = bf.inlineNode(n, s)
+		}
+		if userOnNode == nil {
+			return states
+		}
+		var out []S
+		for _, x := range states {
+			out = append(out, userOnNode(n, x)...)
+		}
+		return out
+	}
 	cl := st.Client()
 	orig := cl.Node
 	cl.Node = func(n ast.Node, s S) []S { return bf.node(orig, n, s) }
@@ -381,10 +428,131 @@ func (bf *BoolFlow) finish(orig func(ast.Node, S) []S, n ast.Node, alts []bfAlt)
 					o = o.Set(k, v)
 				}
 			}
-			out = append(out, o)
+			out = append(out, bf.applyCallResults(n, o))
 		}
 	}
 	return out
+}
+
+func rvKey(cf *Func, i int) string { return fmt.Sprintf("rv:%d:%d", cf.Pos(), i) }
+
+// applyCallResults: after a statement `x, … = helper(…)` whose callee was
+// evaluated inline, the boolean results recorded at the helper's return
+// statement become the values of the assigned locals.
+func (bf *BoolFlow) applyCallResults(n ast.Node, s S) S {
+	var lhs []ast.Expr
+	var rhs ast.Expr
+	switch y := n.(type) {
+	case *ast.AssignStmt:
+		if len(y.Rhs) != 1 || (y.Tok != token.ASSIGN && y.Tok != token.DEFINE) {
+			return s
+		}
+		lhs, rhs = y.Lhs, y.Rhs[0]
+	case *ast.ValueSpec:
+		if len(y.Values) != 1 {
+			return s
+		}
+		for _, nm := range y.Names {
+			lhs = append(lhs, nm)
+		}
+		rhs = y.Values[0]
+	default:
+		return s
+	}
+	call, ok := ast.Unparen(rhs).(*ast.CallExpr)
+	if !ok {
+		return s
+	}
+	cf := bf.Std.Cur().CalleeFunc(call)
+	if cf == nil {
+		return s
+	}
+	info := bf.Std.F.Info()
+	bf.ensure(bf.Std.Cur())
+	for i, l := range lhs {
+		k := rvKey(cf, i)
+		if !s.Has(k) {
+			continue
+		}
+		if id, isId := ast.Unparen(l).(*ast.Ident); isId {
+			if o := ObjOf(info, id); o != nil && bf.local[o] && IsBoolType(o.Type()) {
+				s = s.Set("v:"+VarID(o), s.Get(k)).Del("sy:" + VarID(o))
+			}
+		}
+		s = s.Del(k)
+	}
+	return s
+}
+
+// inlineNode handles a node of a helper that Std evaluates inline.
+func (bf *BoolFlow) inlineNode(n ast.Node, s S) []S {
+	st := bf.Std
+	info := st.F.Info()
+	cur := st.Cur()
+	bf.ensure(cur)
+	switch y := n.(type) {
+	case *ast.ReturnStmt:
+		for i, r := range y.Results {
+			if !IsBoolType(info.TypeOf(r)) {
+				continue
+			}
+			if v, ok := bf.DetEval(r, s); ok {
+				s = s.Set(rvKey(cur, i), boolRepr(v))
+			} else {
+				s = s.Del(rvKey(cur, i))
+			}
+		}
+		return []S{s}
+	case *ast.AssignStmt:
+		if y.Tok != token.ASSIGN && y.Tok != token.DEFINE {
+			return []S{s}
+		}
+		s = bf.applyCallResults(n, s)
+		if len(y.Lhs) != len(y.Rhs) {
+			return []S{s}
+		}
+		states := []S{s}
+		for i, l := range y.Lhs {
+			id, isId := ast.Unparen(l).(*ast.Ident)
+			if !isId {
+				continue
+			}
+			o := ObjOf(info, id)
+			if o == nil || !bf.local[o] || !IsBoolType(o.Type()) {
+				continue
+			}
+			key := "v:" + VarID(o)
+			var next []S
+			for _, x := range states {
+				if x.Has(key) {
+					next = append(next, x) // folded by Std
+					continue
+				}
+				if v, ok := bf.DetEval(y.Rhs[i], x); ok {
+					next = append(next, x.Set(key, boolRepr(v)))
+					continue
+				}
+				unknown := false
+				save := st.Eval.OnUnknown
+				st.Eval.OnUnknown = func(ast.Expr) { unknown = true }
+				ts, fs := st.Eval.Eval(y.Rhs[i], x)
+				st.Eval.OnUnknown = save
+				if unknown {
+					next = append(next, x)
+					continue
+				}
+				for _, z := range ts {
+					next = append(next, z.Set(key, "true"))
+				}
+				for _, z := range fs {
+					next = append(next, z.Set(key, "false"))
+				}
+			}
+			states = next
+		}
+		return states
+	}
+	return []S{s}
 }
 
 // ---------------------------------------------------------------------------
